@@ -23,7 +23,11 @@ import itertools, json
 from lib.framework import Property
 from .util import rat_json, show_rat, exc_name
 
-MODES = {'True': True, 'False': False, 'None': None}
+MODES = {'True': True, 'False': False, 'None': None, '1': 1}     # 1: deprecated spelling of None (`underdetermined is 1`)
+
+
+def canon_mode(m):
+    return 'None' if m == '1' else m
 CALL_LIMIT_S = 15          # one real call (sympy + CBC) normally takes 0.01-0.3 s
 MAX_TIMEOUTS = 3           # after that many, further real calls are not attempted (the check must not hang)
 
@@ -102,11 +106,12 @@ def rank(rows):
 
 
 def inst_comps(inst):
-    return {k: {int(a): F(b) for a, b in v} for k, v in inst['substances']}
+    """composition None (a Substance without composition, only ever a NON-participating entry of the table) reads as {}"""
+    return {k: {int(a): F(b) for a, b in (v or [])} for k, v in inst['substances']}
 
 
 def inst_keys(inst):
-    return sorted({a for _, v in inst['substances'] for a, _ in v})
+    return sorted({a for _, v in inst['substances'] for a, _ in (v or [])})
 
 
 def eff(inst):
@@ -249,9 +254,33 @@ def float_stream(rng, inst):
     return inst
 
 
+def add_extras(rng, inst):
+    """the `substances` table holds MORE entries than the reaction's species: without composition (None), with keys of the reaction,
+    or (rarely) with a key no species has (then chempy refuses: the key is 'not among reactants'). -> (instance, introduces_new_key)"""
+    used = {nm for nm, _ in inst['substances']}
+    pool = [n for n in NAME_POOL + LARGE_POOL if n not in used]
+    keys = inst_keys(inst)
+    subs = [list(e) for e in inst['substances']]
+    new_key = False
+    for _ in range(rng.randint(1, 2)):
+        nm = pool.pop(rng.randrange(len(pool)))
+        u = rng.random()
+        if u < 0.4:
+            comp = None
+        elif u < 0.9 or not keys:
+            comp = [[k, rng.randint(1, 3)] for k in rng.sample(keys, rng.randint(1, min(2, len(keys)))) if k != 0] or None
+        else:
+            comp = [[max(keys) + 1, 1]]
+            new_key = True
+        subs.insert(rng.randrange(len(subs) + 1), [nm, comp])
+    return dict(inst, substances=subs), new_key
+
+
 def call_fields(inst):
     norm_inst(inst)
     d = {k: inst[k] for k in ('reactants', 'products', 'substances', 'via', 'reactants_set', 'products_set')}
+    # composition_keys skips a Substance whose composition is None: for an entry that takes no part that is the empty composition
+    d['substances'] = [[nm, comp or []] for nm, comp in inst['substances']]
     if inst['via'] == 'string':
         d['string_keys'] = inst['string_keys']
     d['inst'] = inst
@@ -262,7 +291,7 @@ def call_args(inst):
     """positional/keyword arguments of the real call for this instance"""
     from chempy import Substance
     norm_inst(inst)
-    table = {nm: {int(a): amount(inst, b) for a, b in comp} for nm, comp in inst['substances']}
+    table = {nm: (None if comp is None else {int(a): amount(inst, b) for a, b in comp}) for nm, comp in inst['substances']}
     r = set(inst['reactants']) if inst['reactants_set'] else list(inst['reactants'])
     p = set(inst['products']) if inst['products_set'] else list(inst['products'])
     kw = {}
@@ -270,7 +299,7 @@ def call_args(inst):
         kw['substances'] = substances_of(inst)
     else:
         if not inst.get('formula'):          # formula instances: the default factory Substance.from_formula parses the key
-            kw['substance_factory'] = lambda k: Substance(k, composition=dict(table[k]))
+            kw['substance_factory'] = lambda k: Substance(k, composition=None if table[k] is None else dict(table[k]))
         kw['substances'] = None if inst['via'] == 'factory' else ' '.join(inst['string_keys'])
     return r, p, kw
 
@@ -410,7 +439,7 @@ class Spy:
 
         def ilp(A):
             spy.A = [[Fraction(int(e.p), int(e.q)) for e in row] for row in A.tolist()]
-            if spy.inject is not None and spy.mode is None:
+            if spy.inject is not None and spy.inject != 'nonlinear' and spy.mode is None:
                 out = list(spy.inject)
             else:
                 out = spy.old_ilp(A)
@@ -418,7 +447,10 @@ class Spy:
             return out
 
         cc._solve_balancing_ilp_pulp = ilp
-        if self.inject is not None and self.mode is not None:
+        if self.inject == 'nonlinear':
+            # a "solver answer" that is not a linear parametrisation: the parameter elimination must refuse (ValueError 'Bug, please report')
+            sympy.linsolve = lambda system, symbs: sympy.FiniteSet(sympy.Tuple(*([symbs[-1] ** 2] + [symbs[-1]] * (len(symbs) - 1))))
+        elif self.inject is not None and self.mode is not None:
             cand = sympy.Tuple(*[sympy.Rational(q.numerator, q.denominator) for q in self.inject])
             sympy.linsolve = lambda system, symbs: sympy.FiniteSet(cand)
         return self
@@ -443,7 +475,8 @@ def substances_of(inst):
     from chempy import Substance
     if inst.get('formula'):
         return OrderedDict((nm, Substance.from_formula(nm)) for nm, _ in inst['substances'])
-    return OrderedDict((nm, Substance(nm, composition={int(a): amount(inst, b) for a, b in comp})) for nm, comp in inst['substances'])
+    return OrderedDict((nm, Substance(nm, composition=None if comp is None else {int(a): amount(inst, b) for a, b in comp}))
+                       for nm, comp in inst['substances'])
 
 
 def show_entry(v):
@@ -523,7 +556,7 @@ class C02(Property):
             return self._cache[key]
         import warnings
         mode = MODES[mode_s]
-        inj = None if inject is None else ([int(v) for v in inject] if mode is None else [F(v) for v in inject])
+        inj = inject if inject in (None, 'nonlinear') else ([int(v) for v in inject] if mode is None else [F(v) for v in inject])
         out = {'A': None, 'ilp': None}
         with warnings.catch_warnings():
             warnings.simplefilter('ignore')
@@ -644,9 +677,21 @@ class C02(Property):
             large = it % 7 == 3          # every 7th draw: 11-16 species (two-digit column indices), 10+ composition keys
             if r < 0.40:
                 inst, x = gen_planted(rng, tier, large=large)
-                inst = decorate(rng, float_stream(rng, inst))
+                base, kind = float_stream(rng, inst), 'planted'
+                if not base.get('formula') and rng.random() < 0.2:      # a `substances` table with more entries than species
+                    base, new_key = add_extras(rng, base)
+                    kind = 'extra-key' if new_key else 'planted'
+                inst = decorate(rng, base)
                 x = reorder(inst, x)
-                all_modes(inst, 'planted', x=x)
+                all_modes(inst, kind, x=x)
+                if rng.random() < 0.25:                                  # the deprecated spelling underdetermined=1 of None
+                    add({'op': 'balance', 'kind': kind, 'mode': '1', 'inst': inst, 'x': x})
+                if rng.random() < 0.12:
+                    add({'op': 'inject_nonlinear', 'kind': 'inject', 'mode': rng.choice(['True', 'False']), 'inst': inst})
+                if kind == 'planted' and rng.random() < 0.2:
+                    dy = all(F(b).denominator & (F(b).denominator - 1) == 0 for _, comp in inst['substances'] for _, b in (comp or []))
+                    add({'op': 'ilp_direct', 'kind': 'planted', 'inst': inst, 'x': x,
+                         'entries': rng.choice(['Rational', 'Float']) if dy else 'Rational'})
                 add({'op': 'setup', 'kind': 'planted', 'inst': inst})
                 if rng.random() < 0.5:
                     injections(inst, x)
@@ -672,12 +717,14 @@ class C02(Property):
                 add({'op': 'setup', 'kind': 'full-rank', 'inst': inst2})
             elif r < 0.85:
                 # never large: CBC (called by chempy without a time limit) can run for minutes on 11+ species two-ray instances
-                inst, x = gen_planted(rng, tier, want_nullity=2)
+                inst, x = gen_planted(rng, tier, want_nullity=rng.choice([2, 2, 3]))     # 3: parameters with fractional coefficients get rescaled
                 if sum(x) > 14:
                     continue
                 inst = decorate(rng, float_stream(rng, inst))
                 x = reorder(inst, x)
                 all_modes(inst, 'multi', x=x)
+                if rng.random() < 0.3:
+                    add({'op': 'balance', 'kind': 'multi', 'mode': '1', 'inst': inst, 'x': x})
                 add({'op': 'minimal', 'kind': 'multi', 'inst': inst, 'variant': 'output'})
                 add({'op': 'minimal', 'kind': 'multi', 'inst': inst, 'variant': rng.choice(['double', 'planted'])})
                 for _ in range(2):
@@ -700,6 +747,12 @@ class C02(Property):
                     add({'op': 'dup', 'kind': 'dup', 'inst': inst2, 'mode': rng.choice(['True', 'False'])})
                 if rng.random() < 0.3:
                     add({'op': 'balance', 'kind': 'dup-disallowed', 'mode': rng.choice(['True', 'False', 'None']), 'inst': inst2})
+            if it % 9 == 4:
+                # Substance.composition_keys by itself: entries without composition, and its skip_keys argument
+                subs, ks = [], rng.sample(range(0, 40), rng.randint(1, 6))
+                for nm in rng.sample(NAME_POOL, rng.randint(1, 5)):
+                    subs.append([nm, None if rng.random() < 0.25 else [[k, rng.randint(1, 4)] for k in rng.sample(ks, rng.randint(0, len(ks)))]])
+                add({'op': 'cks', 'kind': 'cks', 'substances': subs, 'skip': rng.sample(ks, rng.randint(1, len(ks)))})
             if it % 4 == 0:
                 # a HISTORY: the same species names balanced several times in one process with different compositions /
                 # different call paths; self-contained (replayable in a fresh process), judged call by call
@@ -727,14 +780,14 @@ class C02(Property):
         if op == 'balance':
             mode = c['mode']
             kind = c['kind']
-            if mode == 'None':
+            if canon_mode(mode) == 'None':
                 out = self.real(inst, mode)
                 if out['ilp'] is None:
                     cand = {'numeric': [0] * len(inst['reactants'] + inst['products'])}   # never consulted: refused before the solver
                 else:
                     import sympy
                     cand = {'numeric': [int(sympy.Integer(v)) for v in out['ilp']]}
-            elif kind == 'planted':
+            elif kind in ('planted', 'extra-key'):
                 cand = {'numeric': c['x']}
             elif kind == 'wrong-side':
                 cand = {'numeric': c['ray']}
@@ -784,8 +837,10 @@ class C02(Property):
             if c.get('perturb'):
                 x[0] += 1
             return dict(call_fields(inst), op='balanced_inst', x=[rat_json(v) for v in x])
-        if op == 'history':
+        if op in ('history', 'inject_nonlinear', 'ilp_direct'):
             return None
+        if op == 'cks':
+            return {'op': 'cks', 'substances': [[nm, comp or []] for nm, comp in c['substances']], 'raw': c['substances']}
         if op == 'dup':
             out = self.real_dup(inst, c['mode'])
             return {'op': 'dup', 'mode': c['mode'], 'allow': True, 'reactants': inst['reactants'], 'products': inst['products'],
@@ -813,6 +868,10 @@ class C02(Property):
             return 'true' if all(sum(a * b for a, b in zip(r, x)) == 0 for r in A) else 'false'
         if op == 'dup':
             return self.real_dup(mc['inst'], mc['mode'])['line']
+        if op == 'cks':
+            from chempy import Substance
+            subs = [Substance(nm, composition=None if comp is None else {int(a): F(b) for a, b in comp}) for nm, comp in mc['raw']]
+            return '[' + ','.join(str(int(k)) for k in Substance.composition_keys(subs)) + ']'
         return '!unknown-op'
 
     def same(self, mc, io, mo):
@@ -822,6 +881,25 @@ class C02(Property):
     def oracle(self, c):
         import sympy
         op, kind, inst = c['op'], c.get('kind'), c.get('inst')
+        if op == 'inject_nonlinear':
+            # whatever linsolve hands back, an answer must not be fabricated: a non-linear "parametrisation" has to be refused
+            out = self.real(norm_inst(inst), c['mode'], inject='nonlinear')
+            if out.get('breaker'):
+                return None
+            if out['res'] is not None or not isinstance(out['exc'], ValueError):
+                return 'solver answer (x1**2, x1, ...) in mode %s: %s instead of a ValueError' % (c['mode'], out['line'][:120])
+            return None
+        if op == 'ilp_direct':
+            return self._oracle_ilp(c)
+        if op == 'cks':
+            from chempy import Substance
+            subs = [Substance(nm, composition=None if comp is None else {int(a): F(b) for a, b in comp}) for nm, comp in c['substances']]
+            allk = sorted({int(a) for _, comp in c['substances'] for a, _ in (comp or [])})
+            for skip in ((), tuple(c['skip'])):
+                got = Substance.composition_keys(subs, skip_keys=skip) if skip else Substance.composition_keys(subs)
+                if list(got) != [k for k in allk if k not in skip]:
+                    return 'composition_keys(skip_keys=%s) = %s, the occurring keys are %s' % (skip, got, allk)
+            return None
         if op == 'history':
             for j, call in enumerate(c['calls']):
                 f = self._oracle_balance(dict(call, op='balance', kind='planted'), nocache=True)
@@ -848,12 +926,38 @@ class C02(Property):
             return self._judge(inst, 'None', r, p, comps, keys, dup=True)
         return self._oracle_balance(c)
 
+    def _oracle_ilp(self, c):
+        """the ILP helper called directly (its own interface): Rational entries and sympy Float entries (no `.q`: the mult = 1 fallback)"""
+        import sympy
+        import warnings
+        import chempy.chemistry as cc
+        A = signed_matrix(c['inst'])
+        conv = (lambda q: sympy.Float(float(q))) if c['entries'] == 'Float' else (lambda q: sympy.Rational(q.numerator, q.denominator))
+        M = sympy.MutableDenseMatrix([[conv(e) for e in r] for r in A])
+        try:
+            with warnings.catch_warnings():
+                warnings.simplefilter('ignore')
+                with time_limit():
+                    out = cc._solve_balancing_ilp_pulp(M)
+        except HarnessTimeout as e:
+            return None if 'earlier real calls' in str(e) else '_solve_balancing_ilp_pulp exceeded %d s' % CALL_LIMIT_S
+        except Exception as e:
+            return '_solve_balancing_ilp_pulp(%s matrix) raised %s: %s' % (c['entries'], exc_name(e), str(e)[:80])
+        x = c['x']
+        ilp = [Fraction(v).limit_denominator(10 ** 6) if v is not None else None for v in out]
+        k = ilp[0] / x[0] if ilp and ilp[0] is not None else None
+        if k is None or k < 1 or k.denominator != 1 or ilp != [k * v for v in x]:
+            return '_solve_balancing_ilp_pulp(%s matrix) returned %s; every positive integer solution is a multiple of %s in column order' % (
+                c['entries'], [str(v) for v in ilp], x)
+        return None
+
     def _oracle_balance(self, c, nocache=False):
         kind, inst = c.get('kind'), norm_inst(c['inst'])
         comps = inst_comps(inst)
         keys = inst_keys(inst)
         mode = c['mode']
         out = self.real(inst, mode, nocache=nocache)
+        mode = canon_mode(mode)            # `underdetermined=1` must behave as None
         if out.get('breaker'):
             return None
         if mode == 'None' and kind == 'planted' and out['ilp'] is not None:
@@ -870,6 +974,8 @@ class C02(Property):
                 return 'mode %s raised %s (%s), only ValueError is a refusal' % (mode, exc_name(e), str(e)[:80])
             if kind == 'planted':
                 return 'single-ray instance with positive solution %s refused in mode %s: %s' % (c['x'], mode, str(e)[:60])
+            if kind == 'extra-key':         # a key that only a non-participating table entry has: chempy refuses (false refusal, allowed)
+                return None
             if kind == 'multi' and mode != 'False':
                 return 'instance with a positive solution %s refused in mode %s: %s' % (c['x'], mode, str(e)[:60])
             return None
@@ -880,7 +986,7 @@ class C02(Property):
         if f:
             return f
         vals = list(r.values()) + list(p.values())
-        if kind == 'planted' and [show_entry(v) for v in vals] != [str(v) for v in c['x']]:
+        if kind in ('planted', 'extra-key') and [show_entry(v) for v in vals] != [str(v) for v in c['x']]:
             return 'single-ray instance: mode %s returned %s, the unique minimal solution is %s' % (mode, vals, c['x'])
         if kind == 'multi' and mode == 'False':
             return 'two-ray instance accepted in mode False: %s' % vals
